@@ -36,7 +36,7 @@ class St:
     fresh = 0
     notes = set()
     snap_literals = False  # read float literals such as 0.4 at their decimal value 2/5
-    absorb_eps = Fr(1, 10 ** 10)   # |c| <= eps added to a symbolic value is absorbed (0 disables)
+    absorb_eps = Fr(3, 2 * 10 ** 10)   # |c| <= eps added to a symbolic value is absorbed (0 disables)
 
     @classmethod
     def reset(cls, mode="REAL"):
@@ -51,7 +51,7 @@ class St:
         cls.pow_mode = "alg"
         cls.fresh = 0
         cls.notes = set()
-        cls.absorb_eps = Fr(1, 10 ** 10)
+        cls.absorb_eps = Fr(3, 2 * 10 ** 10)
         cls.snap_literals = False
 
 
@@ -174,6 +174,8 @@ def vdiv(a, b):
         return uf("fdiv", 2)(z(a), z(b))
     if conc(a) and a == 0:
         return Fr(0)
+    if not conc(a) and a.eq(b):
+        return Fr(1)       # x/x with x != 0 (a zero divisor is outside the REAL-mode claim unless fork_div is on)
     return z(a) / z(b)
 
 
@@ -712,13 +714,19 @@ def sym_exp(x):
 
 
 def unit_pair(theta):
-    """(cos theta, sin theta) for a value theta; one variable pair per canonical theta."""
+    """(cos theta, sin theta) for a value theta; one variable pair per canonical |theta|:
+    theta and -theta share a pair (conjugated), so exp(i t) * exp(-i t) folds with c^2+s^2 = 1."""
     if conc(theta):
-        arg = z(theta)
-        key = ("cis", str(theta))
+        neg = theta < 0
+        arg = z(-theta if neg else theta)
+        key = ("cis", str(-theta if neg else theta))
     else:
-        arg = canon(theta)
-        key = ("cis", arg.sexpr())
+        a1 = canon(theta)
+        a2 = canon(-theta)
+        s1, s2 = a1.sexpr(), a2.sexpr()
+        neg = (len(s2), s2) < (len(s1), s1)
+        arg = a2 if neg else a1
+        key = ("cis", s2 if neg else s1)
     if key not in St.keys:
         k = len(St.keys)
         c, s = z3.Real("cs!%d" % k), z3.Real("sn!%d" % k)
@@ -728,7 +736,7 @@ def unit_pair(theta):
         St.sem[s.decl().name()] = ("sin", arg)
         St.keys[key] = (c, s, arg)
     c, s, _ = St.keys[key]
-    out = Sym(c, s)
+    out = Sym(c, -s) if neg else Sym(c, s)
     out.tag = ("cis", key)
     return out
 
@@ -850,6 +858,36 @@ class SA(numpy.ndarray):
                 out[i] = sym_int(numpy.ndarray.__getitem__(self, i))
             return out
         return numpy.ndarray.astype(self, dtype, *a, **k)
+
+    # a tiny regulariser added to an array with symbolic elements is absorbed for *all* elements
+    def _tiny(self, o):
+        if St.mode != "REAL" or isinstance(o, numpy.ndarray):
+            return False
+        try:
+            v = Sym.lift(o)
+        except TypeError:
+            return False
+        if not (v.isconc() and v.im == 0 and v.re != 0 and abs(v.re) <= St.absorb_eps):
+            return False
+        return any(not Sym.lift(e).isconc() for e in numpy.ndarray.ravel(numpy.asarray(self)))
+
+    def __add__(self, o):
+        if self._tiny(o):
+            St.absorbed += self.size
+            return self.copy()
+        return numpy.ndarray.__add__(self, o)
+
+    def __radd__(self, o):
+        if self._tiny(o):
+            St.absorbed += self.size
+            return self.copy()
+        return numpy.ndarray.__radd__(self, o)
+
+    def __iadd__(self, o):
+        if self._tiny(o):
+            St.absorbed += self.size
+            return self
+        return numpy.ndarray.__iadd__(self, o)
 
     def view(self, *a, **k):
         if a and isinstance(a[0], str) and a[0] in ("int32", "float32", "float64", "int64"):
